@@ -262,7 +262,7 @@ func mentions(c *Ctx, n ast.Node, o types.Object) bool {
 }
 
 func ruleMapOrder1(c *Ctx) {
-	c.R.Rule("MAPORDER-1", 8, "every range over a Go map (and every reflect MapKeys/MapRange) is order-insensitive (set/map insertion, counting, constant early return), collect-then-sort, or a callback dispatch whose callbacks are classified instead; anything that lets iteration order reach a slice, a string or output is a violation")
+	c.R.Rule("MAPORDER-1", 5, "every range over a Go map (and every reflect MapKeys/MapRange) is order-insensitive (set/map insertion, counting, constant early return), collect-then-sort, or a callback dispatch whose callbacks are classified instead; anything that lets iteration order reach a slice, a string or output is a violation")
 	type forEach struct {
 		method string
 		pos    token.Pos
@@ -495,14 +495,14 @@ func (c *Ctx) pairSites(report bool) map[string]bool {
 }
 
 func rulePair1(c *Ctx) {
-	c.R.Rule("PAIR-1", 3, "a function that adds a node to a util.PtrSet parameter removes it again on every exit (deferred Remove of the same element): the in-process set is the current path, not everything visited")
+	c.R.Rule("PAIR-1", 2, "a function that adds a node to a util.PtrSet parameter removes it again on every exit (deferred Remove of the same element): the in-process set is the current path, not everything visited")
 	c.pairSites(true)
 }
 
 // ---------- MAPORDER-2: pointer formatting ----------
 
 func ruleMapOrder2(c *Ctx) {
-	c.R.Rule("MAPORDER-2", 4, "%p (heap address) formatting in rendering code occurs only in the cycle-marker branch guarded by PtrSet.Contains (unreachable for acyclic values once PAIR-1 holds) or in the frozen function-value rendering")
+	c.R.Rule("MAPORDER-2", 2, "%p (heap address) formatting in rendering code occurs only in the cycle-marker branch guarded by PtrSet.Contains (unreachable for acyclic values once PAIR-1 holds) or in the frozen function-value rendering")
 	pair := c.pairSites(false)
 	c.eachFile(func(pk *packages.Package, file *ast.File) {
 		var stack []ast.Node
@@ -846,7 +846,7 @@ func ruleSortLess2(c *Ctx) {
 // ---------- INTGUARD ----------
 
 func ruleIntGuard1(c *Ctx) {
-	c.R.Rule("INTGUARD-1", 5, "every call of NumVal.Int() lies in the then-branch of IsInt() on the same receiver, and IsInt is a conjunction of an integrality test and a magnitude bound <= 2^63 (constant-evaluated): no float outside int64 is rendered, keyed or emitted through the int64 conversion")
+	c.R.Rule("INTGUARD-1", 3, "every call of NumVal.Int() lies in the then-branch of IsInt() on the same receiver, and IsInt is a conjunction of an integrality test and a magnitude bound <= 2^63 (constant-evaluated): no float outside int64 is rendered, keyed or emitted through the int64 conversion")
 	// IsInt shape
 	fd := c.FuncDecl("val", "NumVal.IsInt")
 	if fd == nil {
@@ -948,7 +948,7 @@ var intConvFrozen = map[string]string{
 }
 
 func ruleIntGuard2(c *Ctx) {
-	c.R.Rule("INTGUARD-2", 12, "inventory of float->integer conversions: each is an index conversion whose result only flows into comparisons and a bounds-checked index (any value is safe), an operand of the documented int64 modulo, or NumVal.Int itself; a new conversion is undecided")
+	c.R.Rule("INTGUARD-2", 6, "inventory of float->integer conversions: each is an index conversion whose result only flows into comparisons and a bounds-checked index (any value is safe), an operand of the documented int64 modulo, or NumVal.Int itself; a new conversion is undecided")
 	c.eachFile(func(pk *packages.Package, file *ast.File) {
 		var stack []ast.Node
 		ast.Inspect(file, func(x ast.Node) bool {
